@@ -18,7 +18,7 @@ func init() {
 		Explanation: "(R1) header finalisation order: the route's parser runs before the virtual host's, which runs before the router-global one, for requests and responses; evaluateHeaders applies additions before removals and joins with ',' only when the formatter says append and a non-empty value exists; " +
 			"(R2) short-circuit: in chooseHost the direct-response and redirect arms reply with the rule's own status/body/code and return before any connection pool is looked at; (R3) retry only before the response starts: the retry decision precedes the store downstreamResponseStarted=true which precedes appendHeaders; a reset retries only when !downstreamResponseStarted; doRetry runs only from the Retry phase; " +
 			"(R4) budget: shouldRetry returns NoRetry when the remaining count is 0 and decrements it before any ShouldRetry answer; nothing else writes the budget after construction; (R5) a retry re-selects host and pool and builds a new upstream request from them before sending; " +
-			"(R6) timeout precedence: sources are applied route -> request headers -> protocol-supplied variable, so the last present source wins, the default only when the result is 0, and a per-try timeout not smaller than the global one is dropped. (R7) the global response timer is created once with timeout.GlobalTimeout when the request has been sent and is not re-armed by anything reachable from doRetry; each retry arms the per-try timer. (R1, additions) headers.Set runs in every iteration over the configured additions and the existing value is joined in only under append and non-empty, however the string is built; (R8) prefix rewrite = prefixRewrite + path[len(matched):] under HasPrefix(path, matched), regex rewrite = regexPattern.ReplaceAllString(path, Substitution), original path saved first, prefix wins, host rewrite order host_rewrite > auto_host_rewrite_header > auto_host_rewrite.",
+			"(R6) timeout precedence: sources are applied route -> request headers -> protocol-supplied variable, so the last present source wins, the default only when the result is 0, and a per-try timeout not smaller than the global one is dropped. (R7) the global response timer is created once with timeout.GlobalTimeout when the request has been sent and is not re-armed by anything reachable from doRetry; each retry arms the per-try timer. (R1, additions) headers.Set runs in every iteration over the configured additions and the existing value is joined in only under append and non-empty, however the string is built; (R8) prefix rewrite = prefixRewrite + path[len(matched):] under HasPrefix(path, matched), regex rewrite = regexPattern.ReplaceAllString(path, Substitution), original path saved first, prefix wins, host rewrite order host_rewrite > auto_host_rewrite_header > auto_host_rewrite. (R9) no call of RouteRule.FinalizeRequestHeaders in pkg/proxy lies in a function statically reachable from downStream.doRetry, nor inside a loop.",
 		Run: runC17,
 	})
 }
@@ -33,6 +33,8 @@ func runC17(c *Ctx) {
 	c.Rule("C17.R7", "one global deadline per request: armed at first send with GlobalTimeout, never re-armed by a retry; per-try timer per attempt", 3)
 	c.Rule("C17.R8", "path rewrite (prefix, regex) and host rewrite apply exactly the configured action, original path saved, documented precedence", 6)
 	defer c17Rewrite(c, "pkg/proxy")
+	c.Rule("C17.R9", "request actions (header additions, rewrites) are applied once per request, never again on a retry", 1)
+	defer c17FinalisedOnce(c, "pkg/proxy")
 	c.Rule("C17.R6", "timeout sources applied lowest priority first; default only when zero", 4)
 	c.NotDecided = append(c.NotDecided, "header values, regex rewrites and URL composition on concrete inputs", "retry-on condition tables (status code lists) on concrete responses")
 
